@@ -152,6 +152,15 @@ def generic_invariants(objs, op):
             return ("pack-not-repeatable", "%s (op %d): second pack() raised %r after the first succeeded" % (name, op, e))
         if p1 != p2:
             return ("pack-not-repeatable", "%s (op %d): two consecutive pack() calls differ: %s / %s" % (name, op, p1.hex()[:60], p2.hex()[:60]))
+        # a deep copy is an equal, independent object: it packs to the same octets
+        try:
+            import copy
+            d = copy.deepcopy(o)
+            p3 = bytes(d.pack())
+        except Exception:
+            continue
+        if p3 != p1:
+            return ("deepcopy-differs", "%s (op %d): copy.deepcopy(obj).pack() = %s but obj.pack() = %s" % (name, op, p3.hex()[:60], p1.hex()[:60]))
     return None
 
 
